@@ -10,9 +10,12 @@
 (*           read lock, after load() succeeded); gen = 0: r.reader is nil  *)
 (*   UseEnd  gen: that call finished using it (hook still under the read   *)
 (*           lock)                                                         *)
-(*   Result  call, kind (ok | error | panic), got, ref: outcome of one     *)
-(*           call as seen by the caller, and the always-loaded header's    *)
-(*           answer to the same call (lists of strings)                    *)
+(*   Result  call, kind (ok | error | panic | dangling), got, ref: outcome  *)
+(*           of one call as seen by the caller, and the always-loaded      *)
+(*           header's answer to the same call (lists of strings);          *)
+(*           dangling: the call returned strings that faulted when the     *)
+(*           caller read them right after the call (they alias the mmap of *)
+(*           a header that was unloaded in between)                        *)
 (*   End     stall: some call did not return within the stall timeout      *)
 (* Load / Unload / Use / UseEnd are emitted while holding the readerMx     *)
 (* lock that protects r.reader, so their order in the trace is the order   *)
@@ -53,6 +56,7 @@ UseEnd == /\ IsEvent("UseEnd")
 (* "always get the same answers as from an always-loaded header or a clean error" *)
 Result == /\ IsEvent("Result")
           /\ CaseReject(l, Trace[l], IF ResultOK(Trace[l].kind, Trace[l].got, Trace[l].ref) THEN {}
+                                     ELSE IF Trace[l].kind = "dangling" THEN {"answer-not-from-a-closed-header-when-read"}
                                      ELSE {"same-answer-as-always-loaded-header-or-clean-error"})
           /\ UNCHANGED <<cur, closed, inuse>>
 
